@@ -448,6 +448,75 @@ def rule_r3_custom_route(chk, db):
 _DECL_CACHE = {}
 
 
+def _literal_defs(body, local, depth=0):
+    """[(bi, variant)] of the enum literals a local is assigned (through whole-value copies), or None if it is defined any other way"""
+    out = []
+    ds = [d for d in body.defs().get(local, []) if d["kind"] != "mutarg"]
+    if not ds or depth > 6:
+        return None
+    for d in ds:
+        if d["kind"] != "assign" or d.get("proj"):
+            return None
+        rv = d["rv"]
+        if rv["k"] == "agg" and rv.get("agg") == "adt" and rv.get("variant") and not rv["ops"]:
+            out.append((d["bi"], rv["variant"]))
+        elif rv["k"] == "use" and flow.op_place(rv["ops"][0]) is not None and not flow.op_place(rv["ops"][0])["proj"]:
+            sub = _literal_defs(body, flow.op_place(rv["ops"][0])["l"], depth + 1)
+            if sub is None:
+                return None
+            out += sub
+        else:
+            return None
+    return out
+
+
+def _reachable_under(se, param, val):
+    """blocks of `se` that can run when parameter `param` has the constant `val` (("int", "0"/"1") or ("variant", name)): switches on the
+    parameter are decided, and so are switches on a local that stores a decision (`let decl = if no_decl { Omit } else { Emit }` ..
+    `match decl`): only the variants assigned in blocks that can run remain possible.  Iterated to a fixed point."""
+    dead = set()
+    for _ in range(12):
+        live = flow.reach(se, [0], removed=frozenset(dead))
+        new = set(dead)
+        for sb in live:
+            st = se.blocks[sb]["term"]
+            if st["k"] != "switch":
+                continue
+            src = paths.switch_source(se, st)
+            edges = se.succ_edges(sb)
+            if src is not None and src[0] == "discr":
+                r = flow.resolve_place(se, src[1]["ops"][0])
+                vals = paths.discr_values(st, src[1])
+                possible = None
+                if r is not None and r[0] == param and not r[1] and val[0] == "variant":
+                    possible = {val[1]}
+                else:
+                    p0 = flow.op_place(src[1]["ops"][0])
+                    lits = _literal_defs(se, p0["l"]) if p0 is not None and not [e for e in p0["proj"] if e != "*"] else None
+                    if lits:
+                        possible = {v for bi, v in lits if bi in live}
+                if possible is not None:
+                    for lab, tb in edges:
+                        v = vals.get(lab)
+                        if v is None:
+                            continue
+                        names = set(v[6:].split("|")) if v.startswith("OTHER:") else {v}
+                        if not (names & possible):
+                            new.add((sb, lab))
+            elif val[0] == "int":
+                r = flow.resolve_place(se, st["discr"])
+                if r is not None and r[0] == param and not r[1]:
+                    listed = [lab for lab, _ in edges if lab != "otherwise"]
+                    for lab, tb in edges:
+                        take = (lab == val[1]) or (lab == "otherwise" and val[1] not in listed)
+                        if not take:
+                            new.add((sb, lab))
+        if new == dead:
+            break
+        dead = new
+    return flow.reach(se, [0], removed=frozenset(dead))
+
+
 def _error_decl_mode(db, b, t):
     """'decl' / 'no_decl' / None: which body setter serialize_error reaches for the constant selector this call passes"""
     se = db.body("s3s::ops::serialize_error")
@@ -495,47 +564,12 @@ def _error_decl_mode(db, b, t):
                         decls.add(bi)
                     if short(callee_def(ct)) in ("serialize", "serialize_content") and "xml::ser" in callee_def(ct):
                         sers.add(bi)
+    live = _reachable_under(se, 2, val)
     out = None
-    for sb in se.live_blocks():
-        st = se.blocks[sb]["term"]
-        if st["k"] != "switch":
-            continue
-        src = paths.switch_source(se, st)
-        target = None
-        dp = flow.op_place(st["discr"])
-        if src is not None and src[0] == "discr" and val[0] == "variant":
-            r = flow.resolve_place(se, src[1]["ops"][0])
-            if r is None or r[0] != 2:
-                continue
-            vals = paths.discr_values(st, src[1])
-            for lab, tb in se.succ_edges(sb):
-                v = vals.get(lab)
-                if v == val[1] or (v and v.startswith("OTHER:") and val[1] in v[6:].split("|")):
-                    target = tb
-        elif val[0] == "int" and dp is not None:
-            r = flow.resolve_place(se, st["discr"])
-            if r is None or r[0] != 2 or r[1]:
-                continue
-            for lab, tb in se.succ_edges(sb):
-                if lab == val[1]:
-                    target = tb
-            if target is None:
-                target = st["otherwise"]
-        if target is None:
-            continue
-        dead = frozenset(paths.const_dead_edges(se))       # arms of `match mode` in an inlined helper that its literal argument does not select
-        others = set()
-        for lab, tb in se.succ_edges(sb):
-            if tb != target:
-                others |= flow.reach(se, [tb], removed=dead, stop_blocks=frozenset([sb]))
-        mine = flow.reach(se, [target], removed=dead, stop_blocks=frozenset([sb]))
-        only_mine = mine - others
-        if decls & only_mine:
-            out = "decl"
-        elif (sers & mine) and not (decls & mine):
-            out = "no_decl"
-        elif decls & (others - mine) and not (decls & mine):
-            out = "no_decl"
+    if decls & live:
+        out = "decl"
+    elif sers & live:
+        out = "no_decl"
     _DECL_CACHE[key] = out
     return out
 
